@@ -465,13 +465,84 @@ def _getattr(repo, col):
     R = "R-C18-getattr"
     fi = repo.method("Module", "__getattr__")
     body = [st for st in fi.node.body if not (isinstance(st, ast.Expr) and isinstance(st.value, ast.Constant))]
-    first = body[0] if body else None
-    ok = isinstance(first, ast.If) and unparse(first.test).replace(" ", "") in ("key.startswith('__')",) and \
-        first.body and isinstance(first.body[0], ast.Return) and "__getattribute__(key)" in unparse(first.body[0])
-    col.check(ok, R, fi, "dunder names are resolved by object.__getattribute__ first",
-              "if key.startswith('__'): return super().__getattribute__(key)",
-              "the dunder guard is not the first statement of __getattr__: deepcopy/pickle look up __deepcopy__/__setstate__ on a "
-              "half-built object, `self.base` is missing and __getattr__ recurses", node=first or fi.node)
+    kname = fi.params[1] if len(fi.params) > 1 else "key"
+    SAMPLES = ("__deepcopy__", "__setstate__", "__getstate__", "__reduce_ex__", "__copy__", "__getnewargs_ex__", "__class__")
+
+    def ev(e, k):
+        """the value of a test on the looked-up name k (a small fragment of string predicates); None = not derivable"""
+        is_k = lambda x: isinstance(x, ast.Name) and x.id == kname
+        if isinstance(e, ast.BoolOp):
+            vs = [ev(v, k) for v in e.values]
+            if isinstance(e.op, ast.And):
+                return False if False in vs else (None if None in vs else True)
+            return True if True in vs else (None if None in vs else False)
+        if isinstance(e, ast.UnaryOp) and isinstance(e.op, ast.Not):
+            v = ev(e.operand, k)
+            return None if v is None else (not v)
+        if isinstance(e, ast.Call) and isinstance(e.func, ast.Attribute) and is_k(e.func.value) and e.func.attr in ("startswith", "endswith") and \
+                len(e.args) == 1 and not e.keywords:
+            a_ = e.args[0]
+            pats = [a_.value] if isinstance(a_, ast.Constant) and isinstance(a_.value, str) else \
+                ([x.value for x in a_.elts] if isinstance(a_, ast.Tuple) and all(isinstance(x, ast.Constant) and isinstance(x.value, str) for x in a_.elts) else None)
+            if pats is None:
+                return None
+            return any(k.startswith(p_) if e.func.attr == "startswith" else k.endswith(p_) for p_ in pats)
+
+        def sval(x):
+            if is_k(x):
+                return k
+            if isinstance(x, ast.Constant) and isinstance(x.value, (str, int)):
+                return x.value
+            if isinstance(x, ast.Subscript) and is_k(x.value) and isinstance(x.slice, ast.Slice) and x.slice.step is None:
+                lo, hi = x.slice.lower, x.slice.upper
+                cv = lambda y: y is None or (isinstance(y, ast.Constant) and isinstance(y.value, int)) or \
+                    (isinstance(y, ast.UnaryOp) and isinstance(y.op, ast.USub) and isinstance(y.operand, ast.Constant) and isinstance(y.operand.value, int))
+                iv = lambda y: None if y is None else (y.value if isinstance(y, ast.Constant) else -y.operand.value)
+                if cv(lo) and cv(hi):
+                    return k[iv(lo):iv(hi)]
+            if isinstance(x, ast.Call) and isinstance(x.func, ast.Name) and x.func.id == "len" and len(x.args) == 1 and is_k(x.args[0]):
+                return len(k)
+            if isinstance(x, (ast.Tuple, ast.List, ast.Set)) and all(isinstance(y, ast.Constant) for y in x.elts):
+                return [y.value for y in x.elts]
+            return None
+        if isinstance(e, ast.Compare) and len(e.ops) == 1:
+            l_, r_ = sval(e.left), sval(e.comparators[0])
+            if l_ is None or r_ is None:
+                return None
+            o = e.ops[0]
+            try:
+                if isinstance(o, ast.Eq):
+                    return l_ == r_
+                if isinstance(o, ast.NotEq):
+                    return l_ != r_
+                if isinstance(o, ast.In):
+                    return l_ in r_
+                if isinstance(o, ast.NotIn):
+                    return l_ not in r_
+                if isinstance(o, (ast.Lt, ast.LtE, ast.Gt, ast.GtE)) and isinstance(l_, int) and isinstance(r_, int):
+                    return {ast.Lt: l_ < r_, ast.LtE: l_ <= r_, ast.Gt: l_ > r_, ast.GtE: l_ >= r_}[type(o)]
+            except TypeError:
+                return None
+        return None
+
+    def plain_lookup(st):
+        """`return super().__getattribute__(key)` / `return object.__getattribute__(self, key)` / `raise AttributeError(...)`"""
+        if isinstance(st, ast.Return) and isinstance(st.value, ast.Call) and isinstance(st.value.func, ast.Attribute) and \
+                st.value.func.attr == "__getattribute__" and any(isinstance(a_, ast.Name) and a_.id == kname for a_ in st.value.args):
+            return True
+        return isinstance(st, ast.Raise) and st.exc is not None and "AttributeError" in unparse(st.exc)
+    first = next((st for st in body if isinstance(st, ast.If) and st.body and plain_lookup(st.body[0])), None)
+    vals = {k_: ev(first.test, k_) for k_ in SAMPLES} if first is not None else {}
+    missed = [k_ for k_, v_ in vals.items() if v_ is False]
+    unk_ = [k_ for k_, v_ in vals.items() if v_ is None]
+    col.add(R, fi, "dunder names are resolved by object.__getattribute__ first",
+            "VIOLATED" if (first is None or missed) else ("UNDECIDED" if unk_ else "DISCHARGED"),
+            "if key.startswith('__'): return super().__getattribute__(key)" if first is not None and not missed and not unk_ else
+            ("__getattr__ has no guard that hands dunder names to the plain attribute lookup: deepcopy/pickle look up __deepcopy__/__setstate__ on a "
+             "half-built object, `self.base` is missing and __getattr__ recurses" if first is None else
+             (f"the guard `{unparse(first.test)[:60]}` does not hold for {missed}: these are looked up on a half-built object by deepcopy / pickle, "
+              f"`self.base` is missing and __getattr__ recurses" if missed else
+              f"whether the guard `{unparse(first.test)[:60]}` holds for every dunder name is not derivable")), node=first or fi.node)
     # nothing before the guard touches self.<attr>
     touched = []
     for st in fi.node.body:
